@@ -6,7 +6,7 @@ Model: `EmmyVerif/Model/Flow.lean` (type algebra) and `EmmyVerif/Model/FlowProg.
 `TypeAt` = `Prog.typeAt`). The theorems hold for **every** program of `F` (any number of variables, any
 nesting of `if/elseif/else`, any `not/and/or` combination of the guards `x`, `type(x) == "T"`,
 `type(x) ~= "T"`, `x == nil`, `x ~= nil`, `x == <literal>`, `x ~= <literal>`, `t_x == "T"` for a stored
-`local t_x = type(x)`, any literal assignments); there is no bound on program size.
+`local t_x = type(x)`, any literal assignments `x = <lit>` and variable assignments `x = y`); there is no bound on program size.
 
 Outside `F` (search only, stated in the manifest): loops (C41), member paths, casts, correlated conditions,
 calls, the query cache of the real engine (the model evaluates each `(variable, node, mode)` query as a
@@ -47,8 +47,8 @@ theorem narrow_sound (p : Prog) (S : List (Nat × TName)) (hS : storedSafe p S =
     (id x : Nat) (v : Val) (h : (id, x, v) ∈ p.run) :
     ∃ t, (id, x, t) ∈ p.typeAt ∧ t.has v = true := by
   obtain ⟨hok, hst⟩ := storedSafe_ok hS
-  have hs := (Block.aexec_sound (W := fun _ => false) p.decls.length p.declTy p.body p.initPt p.initEnv
-    (by simp [Prog.initEnv]) hst hok (initPt_wf p) (initPt_sound p)).2.2.2
+  have hs := (Block.aexec_sound (W := fun _ => false) p.decls.length p.declTy (fun _ _ _ => rfl) p.body p.initPt
+    p.initEnv (by simp [Prog.initEnv]) hst hok (initPt_sound p)).2.2.2
   exact hs (id, x, v) h rfl
 
 /-- **narrow_sound**, as the property states it: the inferred type has a member whose Lua type is the
@@ -102,11 +102,12 @@ theorem guards_sound (t : Ty) (v : Val) (h : t.has v = true) :
 theorem union_sound (s t : Ty) (v : Val) (h : s.has v = true ∨ t.has v = true) : (unionTy s t).has v = true :=
   unionTy_has h
 
-/-- After `x = <literal>` the inferred type of `x` contains the literal's value, whenever the type before the
-assignment is reusable or free of `unknown` (the two cases `get_type_at_flow` distinguishes). -/
-theorem assignment_sound (d : Atom) (src : Ty) (l : Lit) (h : canReuse src l.ty = true ∨ Atom.unknown ∉ src) :
-    (assignResult d src l.ty).has l.val = true :=
-  assignResult_sound h
+/-- After `x = <literal>` the inferred type of `x` contains the literal's value, whatever the type before the
+assignment was; after `x = y` it contains every value the type of `y` contains. -/
+theorem assignment_sound (d : Atom) (src : Ty) :
+    (∀ l : Lit, (assignResult d src l.ty).has l.val = true) ∧
+    (∀ (t : Ty) (v : Val), t.has v = true → (assignResultTy d src t).has v = true) :=
+  ⟨fun _ => assignResult_sound, fun _ _ hv => assignResultTy_sound hv⟩
 
 /-! ### the hypotheses are satisfiable; the model computes what the analyzer shows -/
 
@@ -149,5 +150,17 @@ def ex3 : Prog :=
 example : storedSafe ex3 [] = true := by decide
 example : ex3.run = [(0, 0, .int 2), (2, 0, .int 2)] := by decide
 example : ex3.typeAt = [(0, 0, [.intC 2]), (1, 0, [.integer]), (2, 0, [.integer])] := by decide
+
+/-- `local v0 = true; local v1 = nil; local v2 = "s1"; if v0 then v1 = 1 end; if v0 then v2 = nil end; v2 = v1; p(0, v2)`
+(the assigned union `1|nil` keeps both members over `string|nil`, commit 5dcb194) -/
+def ex4 : Prog :=
+  ⟨[some (.bool true), some .nil, some (.str 1)],
+   .cons (.ite (.leaf (.truthy 0)) (.cons (.assign 1 (.int 1)) .nil) .none)
+   (.cons (.ite (.leaf (.truthy 0)) (.cons (.assign 2 .nil) .nil) .none)
+   (.cons (.assignVar 2 1) (.cons (.probe 0 2) .nil)))⟩
+
+example : storedSafe ex4 [] = true := by decide
+example : ex4.run = [(0, 2, .int 1)] := by decide
+example : ex4.typeAt = [(0, 2, [.intC 1, .nil])] := by decide
 
 end C15
